@@ -60,10 +60,13 @@ type c08pools struct {
 		mt   string
 	}
 	tags []string
+	// extra: repositories that do not exist at the start; a push creates them mid-run
+	extra []string
 }
 
 func mkPools(c *core.Choices) *c08pools {
 	p := &c08pools{repos: pickSome(c, "repos", []string{"foo", "a/b", "tags/list"}, 1, 2), tags: []string{"t1", "t2"}[:c.Range("ntags", 1, 2)]}
+	p.extra = pickSome(c, "extrarepos", []string{"0first", "b", "g/mid", "zz/last"}, 0, 3)
 	nb := c.Range("nblobs", 1, 3)
 	for i := 0; i < nb; i++ {
 		p.blobs = append(p.blobs, []byte(fmt.Sprintf("blob-%d-%d", i, c.Int("blobuniq", 1000))))
@@ -106,9 +109,12 @@ func (p *c08pools) genOp(c *core.Choices, http bool, uploads bool) *reg.Op {
 	blob := p.blobs[c.Int("blob", len(p.blobs))]
 	man := p.mans[c.Int("man", len(p.mans))]
 	tag := p.tags[c.Int("tag", len(p.tags))]
-	w := []int{10, 6, 4, 4, 10, 6, 8, 6, 5, 5, 5, 4, 3, 3, 2, 0, 0, 0}
+	w := []int{10, 6, 4, 4, 10, 6, 8, 6, 5, 5, 5, 4, 3, 3, 2, 0, 0, 0, 0, 0}
 	if uploads {
-		w[15], w[16], w[17] = 6, 3, 2
+		w[15], w[16], w[17], w[19] = 6, 3, 2, 1
+	}
+	if len(p.extra) > 0 {
+		w[18] = 4
 	}
 	switch c.Weighted("kind", w) {
 	case 0:
@@ -138,9 +144,9 @@ func (p *c08pools) genOp(c *core.Choices, http bool, uploads bool) *reg.Op {
 		op.Kind, op.Digest = reg.MountBlob, reg.Sha256(blob)
 		op.Repo2 = p.repos[c.Int("repo2", len(p.repos))]
 	case 11:
-		op.Kind = reg.Tags
+		op.Kind, op.Slow = reg.Tags, c.Bool("slow-consumer", 1, 2)
 	case 12:
-		op.Kind = reg.Repositories
+		op.Kind, op.Slow = reg.Repositories, c.Bool("slow-consumer", 1, 2)
 	case 13:
 		op.Kind, op.Digest = reg.ResolveManifest, reg.Sha256(man.data)
 	case 14:
@@ -153,6 +159,11 @@ func (p *c08pools) genOp(c *core.Choices, http bool, uploads bool) *reg.Op {
 	case 17:
 		op.Kind, op.Handle = reg.UpCommit, 0
 		op.Digest = reg.Sha256(nil) // replaced at run time by the task: the digest of what it believes was written
+	case 18: // a push that brings a new repository into existence
+		op.Repo = p.extra[c.Int("extrarepo", len(p.extra))]
+		op.Kind, op.Data, op.Digest, op.DeclSize, op.MediaType = reg.PushBlob, blob, reg.Sha256(blob), int64(len(blob)), "application/octet-stream"
+	case 19: // cancel the shared upload session
+		op.Kind, op.Handle = reg.UpCancel, 0
 	}
 	return op
 }
@@ -175,6 +186,9 @@ func c08(env *core.Env, kind string, immutable bool) {
 		// A multi-exchange push names its repository (opens an upload) before it takes
 		// effect; a repository without content "may be reported either as unknown or
 		// as empty", so every name in play may appear in listings at any time.
+		m0.Named[r] = true
+	}
+	for _, r := range pools.extra {
 		m0.Named[r] = true
 	}
 	http := kind == "http"
@@ -248,6 +262,9 @@ func c08(env *core.Env, kind string, immutable bool) {
 				if op.Kind == reg.UpCommit {
 					_ = written
 				}
+				if op.Slow {
+					op.Between = sched.Yield // other tasks run while the listing is being consumed
+				}
 				sched.Yield()
 				e := histEntry{task: t, op: op, call: sched.Seq()}
 				e.res = reg.Exec(ctx, r, op, h)
@@ -262,6 +279,43 @@ func c08(env *core.Env, kind string, immutable bool) {
 		all = append(all, h...)
 	}
 	sort.Slice(all, func(i, j int) bool { return all[i].call < all[j].call })
+	// The final state is part of the history: once every task has returned, one more
+	// client reads everything in the key space (and everything a commit reported).
+	last := int64(0)
+	for _, e := range all {
+		last = max(last, e.ret, e.call)
+	}
+	final := func(op *reg.Op) {
+		op.StopAfter, op.ContentFault = -1, -1
+		e := histEntry{task: ntasks, op: op, call: last + 1, ret: last + 2}
+		last += 2
+		e.res = reg.Exec(ctx, mem, op, nil)
+		all = append(all, e)
+	}
+	final(&reg.Op{Kind: reg.Repositories})
+	committed := map[ociregistry.Digest]bool{}
+	for _, e := range all {
+		if e.op.Kind == reg.UpCommit && e.res.Err == nil {
+			committed[e.res.Desc.Digest] = true
+		}
+	}
+	for _, rp := range append(append([]string{}, pools.repos...), pools.extra...) {
+		final(&reg.Op{Kind: reg.Tags, Repo: rp})
+		for _, b := range pools.blobs {
+			final(&reg.Op{Kind: reg.GetBlob, Repo: rp, Digest: reg.Sha256(b)})
+		}
+		for _, mn := range pools.mans {
+			final(&reg.Op{Kind: reg.GetManifest, Repo: rp, Digest: reg.Sha256(mn.data)})
+		}
+		for _, tg := range pools.tags {
+			final(&reg.Op{Kind: reg.GetTag, Repo: rp, Tag: tg})
+		}
+		if rp == pools.repos[0] {
+			for _, d := range sortedDigestKeys(committed) {
+				final(&reg.Op{Kind: reg.GetBlob, Repo: rp, Digest: d})
+			}
+		}
+	}
 	active := 0
 	for _, h := range hists {
 		if len(h) > 0 {
@@ -537,4 +591,13 @@ func c08commitWrite(env *core.Env) {
 		env.Failf(env.Property+"/commit-descriptor-size", "Commit returned size %d for a blob of %d bytes", commitDesc.Size, len(data))
 	}
 	})
+}
+
+func sortedDigestKeys(m map[ociregistry.Digest]bool) []ociregistry.Digest {
+	var out []ociregistry.Digest
+	for d := range m {
+		out = append(out, d)
+	}
+	sort.Slice(out, func(i, j int) bool { return out[i] < out[j] })
+	return out
 }
